@@ -313,6 +313,13 @@ def c17_scenarios(r, tier):
     T.append(("expiry", [hline("hprepare", i, p, A, t, ids) for i in ids] + ["sleep 60", hline("hprepare", 1, p, A, t, ids), "sleep 3600",
                          hline("hexecute", 1, p, A), hline("hcommit", 2, p, A), hline("habort", 3, p, A), "holds %s" % hx(A)] +
               full_generation(ids, A, t) + ["holds %s" % hx(A)]))
+    # a VALID contribution from a listed participant, delivered before / after the generation has run out of time with nothing
+    # else touching the name in between: accepted while it lives, refused once it is gone (whoever looks the generation up)
+    for own_, ask_ in ((3, 1), (2, 1), (3, 2)):
+        C_ = "DW/lc%d%d" % (own_, ask_)
+        T.append(("contribute-after-expiry-%d-%d" % (own_, ask_), [hline("hprepare", own_, p, C_, t, ids), "hcontributev %d %d %s" % (own_, ask_, hx(C_)), "sleep 3600",
+                                                                   "hcontributev %d %d %s" % (own_, ask_, hx(C_)), hline("hexecute", own_, p, C_), hline("hprepare", own_, p, C_, t, ids),
+                                                                   "hcontributev %d %d %s" % (own_, ask_, hx(C_)), hline("habort", own_, p, C_), "hcontributev %d %d %s" % (own_, ask_, hx(C_)), "holds %s" % hx(C_)]))
     T.append(("two-names-interleaved", [hline("hprepare", 1, p, A, t, ids), hline("hprepare", 1, p, B, t, ids), hline("hprepare", 2, p, B, t, ids),
                                         hline("hprepare", 2, p, A, t, ids), hline("hprepare", 3, p, A, t, ids), hline("habort", 1, p, B), hline("hprepare", 3, p, B, t, ids),
                                         hline("hexecute", 1, p, A), hline("hexecute", 2, p, A), hline("hexecute", 3, p, A), hline("hcommit", 2, p, B), hline("hcommit", 1, p, A),
